@@ -379,7 +379,7 @@ class Calendar(Dict, _calendar):
                 t1 = TMAX
             if t0 is None:
                 t0 = TMIN
-            t0, t1 = date_range(t0, t1)
+            t0, t1 = [ymd(t) for t in date_range(t0, t1)] # the range runs from day t0 to day t1: adjust/add look up ymd(date) in the table _populate builds from t0
             ## weekend are weekend days
             if weekend is None: 
                 weekend = [5,6]
